@@ -1683,3 +1683,83 @@ Proof.
   intros Hf Hr. unfold okb. rewrite Hf. cbn [andb]. apply steps_ok_spec.
   eapply replay_implies_steps_ok; [|eassumption]. constructor.
 Qed.
+
+(** * The second import returns the very same view (not only the same lookups) when the
+    recorded Git refs hold no explicit absent entry, which [View::set_git_ref_target]
+    guarantees and every operation of the model preserves. *)
+Definition wf_map (m : rmap) : Prop := forall k, In k (keys m) -> get m k <> absent.
+
+Lemma wf_map_nil : wf_map [].
+Proof. intros k []. Qed.
+Lemma set_wf m k t : wf_map m -> wf_map (set m k t).
+Proof.
+  intros H j Hj. unfold set in *. destruct (is_absent t) eqn:A.
+  - apply (remove_keys k j m) in Hj. destruct Hj as [Hne Hj].
+    rewrite get_remove. apply not_eq_sym, N.eqb_neq in Hne. rewrite Hne. now apply H.
+  - cbn [keys map fst In] in Hj. cbn [get]. destruct (k =? j) eqn:E.
+    + intros C. subst t. discriminate A.
+    + destruct Hj as [Hj|Hj]; [apply N.eqb_neq in E; congruence|].
+      apply (remove_keys k j m) in Hj. destruct Hj as [_ Hj].
+      rewrite get_remove, E. now apply H.
+Qed.
+
+Lemma import_grefs_wf anc s g : wf_map (grefs s) -> wf_map (grefs (import_refs anc s g)).
+Proof.
+  intros H. unfold import_refs. rewrite apply_remote_grefs.
+  apply (fold_invariant (fun w => wf_map (grefs w))); [|assumption].
+  intros e u He. unfold apply_git_ref_change. cbn [grefs]. now apply set_wf.
+Qed.
+Lemma export_grefs_wf s g : wf_map (grefs s) -> wf_map (grefs (fst (fst (export_refs s g)))).
+Proof.
+  intros H. unfold export_refs. cbn [fst grefs].
+  apply (fold_invariant (fun e => wf_map (x_grefs e))).
+  { intros e n He. unfold export_update. cbv beta iota.
+    destruct (classify_export (get (grefs s) n) (get (local s) n)) as [|r|o c|o]; try assumption.
+    destruct (update_git_ref (x_git e) n o c) as [[r|] g']; cbn [x_grefs]; [assumption|].
+    now apply set_wf. }
+  apply (fold_invariant (fun e => wf_map (x_grefs e))).
+  { intros e n He. unfold export_delete. cbv beta iota.
+    destruct (classify_export (get (grefs s) n) (get (local s) n)) as [|r|o c|o]; try assumption.
+    destruct (delete_git_ref (x_git e) n o) as [[r|] g']; cbn [x_grefs]; [assumption|].
+    now apply set_wf. }
+  exact H.
+Qed.
+
+Theorem second_import_is_identity anc s g : NoDup (keys g) -> wf_map (grefs s) ->
+  let s1 := import_refs anc s g in
+  let '(s2, g2, _) := export_refs s1 g in
+  import_refs anc s2 g2 = s2.
+Proof.
+  intros Hnd Hwf s1.
+  pose proof (export_after_sync s1 g (import_synced anc s g Hnd)) as HX.
+  pose proof (export_git_nodup s1 g Hnd) as Hnd2.
+  pose proof (export_grefs_wf s1 g (import_grefs_wf anc s g Hwf)) as Hwf2.
+  destruct (export_refs s1 g) as [[s2 g2] failed]. cbn [fst snd] in Hnd2, Hwf2.
+  destruct HX as [_ [H2 _]].
+  apply import_noop; try assumption.
+  - intros n. now destruct (H2 n).
+  - intros n. now destruct (H2 n).
+Qed.
+
+(** All views reached by the model's runs have well-formed recorded Git refs. *)
+Lemma run_grefs_wf anc steps : wf_map (grefs (fst (run anc steps))).
+Proof.
+  unfold run. apply (fold_invariant (fun sg => wf_map (grefs (fst sg)))).
+  - intros [s g] a H. cbn [fst] in H.
+    destruct a as [m t|m t|m t|m c|pre post|pre post failed]; cbn [step_exec fst grefs]; try assumption.
+    + now apply set_wf.
+    + now apply import_grefs_wf.
+    + now apply export_grefs_wf.
+  - apply wf_map_nil.
+Qed.
+
+Theorem second_import_is_identity_after_any_history anc steps :
+  let '(s, g) := run anc steps in
+  let s1 := import_refs anc s g in
+  let '(s2, g2, _) := export_refs s1 g in
+  import_refs anc s2 g2 = s2.
+Proof.
+  pose proof (run_git_nodup anc steps) as H. pose proof (run_grefs_wf anc steps) as W.
+  destruct (run anc steps) as [s g]. cbn [fst snd] in H, W.
+  exact (second_import_is_identity anc s g H W).
+Qed.
